@@ -32,6 +32,7 @@ import (
 	"github.com/oxia-db/oxia/common/compare"
 	"github.com/oxia-db/oxia/common/constant"
 	time2 "github.com/oxia-db/oxia/common/time"
+	"github.com/oxia-db/oxia/common/vhook"
 
 	"github.com/oxia-db/oxia/common/metric"
 	"github.com/oxia-db/oxia/proto"
@@ -312,10 +313,16 @@ func (d *db) GetSequenceUpdates(prefixKey string) (SequenceWaiter, error) {
 	d.getSequenceUpdatesCounter.Add(1)
 
 	sw := d.sequenceWaiterTracker.AddSequenceWaiter(prefixKey)
+	if vhook.Enabled {
+		vhook.At("seq.waiter.added", prefixKey)
+	}
 
 	// First read last key in the sequence
 	it, err := d.kv.KeyRangeScanReverse(fmt.Sprintf("%s-%020d", prefixKey, 0),
 		fmt.Sprintf("%s-%020d", prefixKey, math.MaxInt64))
+	if vhook.Enabled {
+		vhook.At("seq.waiter.initial-read", prefixKey)
+	}
 	if err != nil {
 		err = multierr.Append(err, sw.Close())
 		return nil, err
